@@ -86,6 +86,20 @@ pub fn judge_tx(ctx: &mut Ctx, w: &World, _st: &St, t: &PTx, what: &dyn Fn() -> 
             5 => t.proposals.get(r.index as usize).map(|c| t.bytes[c.start..c.end].to_vec()),
             _ => None,
         };
+        // the item a redeemer points at must be one the ledger runs a Plutus script for
+        let runs_script: Option<bool> = match r.tag {
+            0 => inputs_sorted.get(r.index as usize).and_then(|o| w.lookup(o)).map(|i| matches!(w.utxos[i].0.owner, Owner::Plutus(_))),
+            1 => policies.get(r.index as usize).map(|p| w.plutus.iter().any(|s| &s.hash().to_bytes() == p)),
+            2 => t.certs.get(r.index as usize).map(|c| ledger::cert_script(c).is_some()),
+            3 => ras.get(r.index as usize).map(|ra| ra[0] & 0x10 != 0),
+            4 => voters.get(r.index as usize).map(|(k, _)| matches!(k, 1 | 3)),
+            _ => t.proposals.get(r.index as usize).map(|p| proposal_has_policy(p)),
+        };
+        if runs_script == Some(false) {
+            ctx.violation(format!("{}/{}/redeemer-points-at-an-item-that-runs-no-script", P, purpose), format!("({}, {}) ; {}", r.tag, r.index, what()));
+        } else if runs_script == Some(true) {
+            ctx.hit("pointed-item-runs-a-script");
+        }
         match resolved {
             None => ctx.violation(format!("{}/{}/pointer-out-of-range", P, purpose), format!("index {} ; {}", r.index, what())),
             Some(id) => {
@@ -125,6 +139,20 @@ pub fn judge_tx(ctx: &mut Ctx, w: &World, _st: &St, t: &PTx, what: &dyn Fn() -> 
     }
 }
 
+/// proposal_procedure = [deposit, reward_account, gov_action, anchor]; parameter change
+/// [0, prev, update, policy/null] and treasury withdrawals [2, withdrawals, policy/null] may name a policy
+fn proposal_has_policy(p: &refcbor::Node) -> bool {
+    let act = match p.as_array().and_then(|a| a.get(2)).and_then(|x| x.as_array()) {
+        Some(a) => a,
+        None => return false,
+    };
+    match act.get(0).and_then(|x| x.as_uint()) {
+        Some(0) => act.get(3).map(|x| !x.is_null()).unwrap_or(false),
+        Some(2) => act.get(2).map(|x| !x.is_null()).unwrap_or(false),
+        _ => false,
+    }
+}
+
 pub fn scenario(name: &str, tier: Tier) -> Option<BoxedScenario> {
     crate::builder::scenario_for(P, name, tier)
 }
@@ -134,7 +162,7 @@ pub fn run(tier: Tier, seed: u64) -> i32 {
     rep.rule = "all histories (every insertion order) over Plutus and non-Plutus inputs on adversarial outpoints, native and Plutus policies, script and key certificates, key / native-script / Plutus withdrawals, CC key / CC script / DRep script voters, plain and Plutus-guarded proposals (two Plutus items in every purpose: spend, mint, cert, reward, vote, propose), to the stated depth; each redeemer's data is a unique integer naming its item; pointers resolved in the parsed body by the ledger's ordering rules. distinct = distinct built transactions".into();
     rep.assume("reward accounts are ordered as the ledger's RewardAccount (network, script credential before key credential, hash); voters as the ledger's Voter");
     rep.trusted_base = vec!["notes/ledger_rules.md §5 (redeemer pointer resolution)".into()];
-    rep.required_hits = vec!["spend-ok", "mint-ok", "cert-ok", "reward-ok", "vote-ok", "propose-ok", ">=2-redeemers", "spend:>=2-redeemers", "mint:>=2-redeemers", "cert:>=2-redeemers", "reward:>=2-redeemers", "vote:>=2-redeemers", "propose:>=2-redeemers"];
+    rep.required_hits = vec!["spend-ok", "mint-ok", "cert-ok", "reward-ok", "vote-ok", "propose-ok", ">=2-redeemers", "pointed-item-runs-a-script", "spend:>=2-redeemers", "mint:>=2-redeemers", "cert:>=2-redeemers", "reward:>=2-redeemers", "vote:>=2-redeemers", "propose:>=2-redeemers"];
     crate::builder::explore_for(P, tier, seed, &mut rep);
     rep.finish()
 }
